@@ -7,9 +7,9 @@ from lib import vlib
 def run(ctx):
     q = ctx.quick()
     ctx.tlc("MC_SymLookup", "MC_SymLookup.cfg", workers=1, timeout=300, tag="modes x kinds x presence: Impl in Req")
-    modes = [("symtab", dict(ldflags="-s=false")), ("default", dict(ldflags=None))]
-    if not q:
-        modes += [("stripped", dict(ldflags="-s -w")), ("pie", dict(ldflags="-s=false", buildmode="pie"))]
+    modes = [("symtab", dict(ldflags="-s=false")), ("default", dict(ldflags=None)),
+             ("stripped", dict(ldflags="-s -w")), ("pie", dict(ldflags="-s=false", buildmode="pie")),
+             ("piestripped", dict(ldflags="-s -w", buildmode="pie"))]
     for mode, kw in modes:
         binary = ctx.build_test("zzverif/drv", ["drv"], name="drv_" + mode, **kw)
         out = ctx.path("sym_%s.ndjson" % mode)
